@@ -21,6 +21,7 @@ package router
 import (
 	"context"
 	"fmt"
+	"net/url"
 	"regexp"
 	"sort"
 	"strings"
@@ -233,10 +234,11 @@ type c04Var struct {
 }
 
 type c04Rule struct {
-	Kind    string   `json:"kind"` // path | prefix | regex | variable | rpc
+	Kind    string   `json:"kind"` // path | prefix | regex | regex-search | variable | rpc | dsl
 	Pattern string   `json:"pattern,omitempty"`
 	Headers []c04Hdr `json:"headers,omitempty"`
 	Vars    []c04Var `json:"vars,omitempty"`
+	Dsl     []c04Dsl `json:"dsl,omitempty"` // kind dsl: the rule's dsl_expressions (zz_verif_C04_dsl_test.go)
 }
 
 func (r c04Rule) String() string {
@@ -250,6 +252,9 @@ func (r c04Rule) String() string {
 			op = "~"
 		}
 		s += " " + h.Name + op + h.Value
+	}
+	for _, e := range r.Dsl {
+		s += " {" + e.Text() + "}"
 	}
 	for i, v := range r.Vars {
 		if v.Regex != "" {
@@ -273,6 +278,7 @@ type c04Req struct {
 	Path    string            `json:"path"`
 	Method  string            `json:"method"`
 	Headers map[string]string `json:"headers,omitempty"`
+	Query   string            `json:"query,omitempty"` // query string (request variable of its own, not part of the path)
 }
 
 func (q c04Req) String() string {
@@ -281,6 +287,9 @@ func (q c04Req) String() string {
 		hs = append(hs, k+"="+v)
 	}
 	sort.Strings(hs)
+	if q.Query != "" {
+		return fmt.Sprintf("%s %s?%s host=%q %v", q.Method, q.Path, q.Query, q.Host, hs)
+	}
 	return fmt.Sprintf("%s %s host=%q %v", q.Method, q.Path, q.Host, hs)
 }
 
@@ -312,6 +321,11 @@ func c04B(b bool) c04Tri {
 }
 
 var c04ReCache = map[string]*regexp.Regexp{}
+
+func c04Compiles(p string) bool {
+	_, err := regexp.Compile(p)
+	return err == nil
+}
 
 // c04Re: all patterns of the alphabets are anchored at both ends (or are ".*"),
 // so "regex" means the same under search and full-match readings.
@@ -347,6 +361,12 @@ func c04RefHeaders(http bool, hs []c04Hdr, q c04Req) c04Tri {
 				continue
 			}
 			res = c04And(res, c04B(exact))
+			continue
+		}
+		if h.Regex && !c04Compiles(h.Value) {
+			// a matcher whose pattern is not a regular expression: the statement
+			// defines nothing (the tree drops the matcher with an error log)
+			res = c04And(res, c04Unknown)
 			continue
 		}
 		v, ok := q.Headers[h.Name]
@@ -416,8 +436,35 @@ func c04RefVars(vs []c04Var, q c04Req) c04Tri {
 	return c04Unknown
 }
 
-// c04RefRule: does rule r hold for request q?
+// c04RefRule: does rule r hold for request q? A path with percent-encoded
+// characters is evaluated as given and percent-decoded: the statement does not
+// say which form the rules see, so the verdict is decided only where both agree.
 func c04RefRule(r c04Rule, q c04Req) c04Tri {
+	t := c04RefRuleRaw(r, q)
+	if strings.Contains(q.Path, "%") {
+		if dec, err := url.PathUnescape(q.Path); err == nil && dec != q.Path {
+			q2 := q
+			q2.Path = dec
+			if c04RefRuleRaw(r, q2) != t {
+				return c04Unknown
+			}
+		}
+	}
+	return t
+}
+
+// c04RefRegexSearch: unanchored regex rule under the "search" and the "whole
+// path" readings; an empty path is left undecided when either reading holds.
+func c04RefRegexSearch(pattern, path string) c04Tri {
+	search := regexp.MustCompile(pattern).MatchString(path)
+	full := regexp.MustCompile("^(?:" + pattern + ")$").MatchString(path)
+	if search != full || (path == "" && search) {
+		return c04Unknown
+	}
+	return c04B(search)
+}
+
+func c04RefRuleRaw(r c04Rule, q c04Req) c04Tri {
 	switch r.Kind {
 	case "path":
 		t := c04No
@@ -437,8 +484,14 @@ func c04RefRule(r c04Rule, q c04Req) c04Tri {
 		return c04And(t, c04RefHeaders(true, r.Headers, q))
 	case "regex":
 		return c04And(c04B(c04Re(r.Pattern).MatchString(q.Path)), c04RefHeaders(true, r.Headers, q))
+	case "regex-search":
+		// unanchored pattern: "Match request's Path with Regex Comparing" does not say
+		// whether the pattern must cover the whole path; decided where both readings agree
+		return c04And(c04RefRegexSearch(r.Pattern, q.Path), c04RefHeaders(true, r.Headers, q))
 	case "variable":
 		return c04RefVars(r.Vars, q)
+	case "dsl":
+		return c04RefDslRule(r.Dsl, q)
 	case "rpc":
 		if len(r.Headers) == 1 && r.Headers[0].Name == types.RPCRouteMatchKey && r.Headers[0].Value == ".*" && !r.Headers[0].Regex {
 			// legacy wildcard: documented only as "compatible for old version".
@@ -491,8 +544,12 @@ func c04Router(r c04Rule, cluster string) v2.Router {
 		out.Match.Path = r.Pattern
 	case "prefix":
 		out.Match.Prefix = r.Pattern
-	case "regex":
+	case "regex", "regex-search":
 		out.Match.Regex = r.Pattern
+	case "dsl":
+		for _, e := range r.Dsl {
+			out.Match.DslExpressions = append(out.Match.DslExpressions, v2.DslExpressionMatcher{Expression: e.Text()})
+		}
 	}
 	for _, h := range r.Headers {
 		out.Match.Headers = append(out.Match.Headers, v2.HeaderMatcher{Name: h.Name, Value: h.Value, Regex: h.Regex})
@@ -511,6 +568,9 @@ func c04Ctx(q c04Req) (context.Context, api.HeaderMap) {
 	}
 	variable.SetString(ctx, types.VarPath, q.Path)
 	variable.SetString(ctx, types.VarMethod, q.Method)
+	if q.Query != "" {
+		variable.SetString(ctx, types.VarQueryString, q.Query)
+	}
 	h := protocol.CommonHeader{}
 	for k, v := range q.Headers {
 		h[k] = v
